@@ -1073,6 +1073,21 @@ func (x *extractor) factsAds() {
 		}
 	}
 	x.set("sock_listener_close_order", lco)
+	// (C02) a datagram sent to a socket of this very node is handed to the reader as a copy, not as the caller's buffer
+	slc := "unknown"
+	if fd := x.fn(netceptorGo, "Netceptor", "SendMessageWithHopsToLive"); fd != nil {
+		slc = "local:shares-callers-buffer"
+		ast.Inspect(fd, func(n ast.Node) bool {
+			if is, ok := n.(*ast.IfStmt); ok && x.str(is.Cond) == "toNode == s.nodeID" {
+				b := x.str(is.Body)
+				if strings.Contains(b, "data = append([]byte(nil), data...)") || strings.Contains(b, "copy(") {
+					slc = "local:copy"
+				}
+			}
+			return true
+		})
+	}
+	x.set("send_local_copy", slc)
 	// (C13) the command runner works in the directory it is given and never creates it
 	rmk := "unknown"
 	if fd := x.fn("pkg/workceptor/command.go", "", "commandRunner"); fd != nil {
